@@ -1309,26 +1309,49 @@ func (e *Engine) execFor(s *ast.ForStmt, st *State, label string) *State {
 			}
 		}
 	}
-	end = e.merge(append([]*State{end}, lf.continues...))
-	if end != nil && s.Post != nil {
-		end = e.exec(s.Post, end)
-	}
-	if end != nil {
-		if ls != nil {
-			_ = end // hints are seeded at the loop head only
+	for pi, end := range e.loopEnds(end, lf) {
+		sfx := ""
+		if pi > 0 {
+			sfx = fmt.Sprintf("@p%d", pi)
 		}
-		e.checkInvariants(end, ls, ord, "inv-pres", s.Pos())
-		e.loopFrame(end, m, ord, "inv-pres", s.Pos(), false)
-		if v0 != "" {
-			e.spec++
-			v1 := e.ev(ls.Decreases.Expr, end).T
-			e.spec--
-			e.obligeNamed(end, fmt.Sprintf("dec.%d", e.lbl(ord)), "dec", and(e.le(e.izero(), v0), e.lt(v1, v0)), s.Pos(), "loop variant decreases and is bounded below", ls.Decreases.Prop)
+		if end != nil && s.Post != nil {
+			end = e.exec(s.Post, end)
 		}
-		e.canary(end, fmt.Sprintf("loop%d-end", e.lbl(ord)), s.Pos())
+		if end != nil {
+			e.checkInvariants(end, ls, ord, "inv-pres"+sfx, s.Pos())
+			e.loopFrame(end, m, ord, "inv-pres"+sfx, s.Pos(), false)
+			if v0 != "" {
+				e.spec++
+				v1 := e.ev(ls.Decreases.Expr, end).T
+				e.spec--
+				e.obligeNamed(end, fmt.Sprintf("dec%s.%d", sfx, e.lbl(ord)), "dec", and(e.le(e.izero(), v0), e.lt(v1, v0)), s.Pos(), "loop variant decreases and is bounded below", ls.Decreases.Prop)
+			}
+			e.canary(end, fmt.Sprintf("loop%d-end%s", e.lbl(ord), sfx), s.Pos())
+		}
 	}
 	outs := append([]*State{exit}, lf.breaks...)
 	return e.merge(outs)
+}
+
+// loopEnds: the states in which an iteration of a loop body ends. Normally they are merged into one state and the
+// invariants are checked once; with `opt splitpaths yes` every way of reaching the end of the body (falling off the
+// end, each continue) is checked on its own (obligations inv-pres@p1, @p2, ... in source order of the continues),
+// which keeps each query to one path through the body.
+func (e *Engine) loopEnds(end *State, lf *loopFrame) []*State {
+	all := append([]*State{end}, lf.continues...)
+	if e.c == nil || e.c.Opts["splitpaths"] == "" || e.spec > 0 {
+		return []*State{e.merge(all)}
+	}
+	var out []*State
+	for _, s := range all {
+		if s != nil {
+			out = append(out, s)
+		}
+	}
+	if len(out) <= 1 {
+		return []*State{e.merge(all)}
+	}
+	return append([]*State{nil}, out...) // index 0 unused: split paths are numbered from 1
 }
 
 func (e *Engine) canary(st *State, where string, p token.Pos) {
@@ -1547,16 +1570,18 @@ func (e *Engine) execRange(s *ast.RangeStmt, st *State, label string) *State {
 	lf := e.pushLoop(label, true)
 	end := e.execBlock(s.Body.List, body)
 	e.popLoop()
-	end = e.merge(append([]*State{end}, lf.continues...))
-	if end != nil {
-		end.vars[hidden] = Value{e.nameTerm("k", e.isort(), next), it}
-		bindKey(end)
-		if ls != nil {
-			_ = end // hints are seeded at the loop head only
+	for pi, end := range e.loopEnds(end, lf) {
+		sfx := ""
+		if pi > 0 {
+			sfx = fmt.Sprintf("@p%d", pi)
 		}
-		e.checkInvariants(end, ls, ord, "inv-pres", s.Pos())
-		e.loopFrame(end, m, ord, "inv-pres", s.Pos(), false)
-		e.canary(end, fmt.Sprintf("loop%d-end", e.lbl(ord)), s.Pos())
+		if end != nil {
+			end.vars[hidden] = Value{e.nameTerm("k", e.isort(), next), it}
+			bindKey(end)
+			e.checkInvariants(end, ls, ord, "inv-pres"+sfx, s.Pos())
+			e.loopFrame(end, m, ord, "inv-pres"+sfx, s.Pos(), false)
+			e.canary(end, fmt.Sprintf("loop%d-end%s", e.lbl(ord), sfx), s.Pos())
+		}
 	}
 	outs := append([]*State{exit}, lf.breaks...)
 	return e.merge(outs)
